@@ -482,7 +482,7 @@ def run(ctx):
     sjobs = scale_jobs(ctx)
     # the scale records: their own pool call (pool chunks would put all the long calls into one
     # worker) and their own TLC run, side by side with the batches of small records
-    srecs = pool.run_jobs(__name__, sjobs, limit=120.0)
+    srecs = pool.run_jobs(__name__, sjobs, limit=120.0, reuse=True)
     box = {}
 
     def judge_scale():
@@ -493,7 +493,7 @@ def run(ctx):
             box["e"] = e
     th = threading.Thread(target=judge_scale)
     th.start()
-    recs = pool.run_jobs(__name__, jobs)
+    recs = pool.run_jobs(__name__, jobs, reuse=True, abort=True)
     verdicts = validate_parallel(ctx, recs)
     th.join()
     if "e" in box:
